@@ -525,10 +525,8 @@ _RE_ACT = re.compile(r"^<(\w+) line \d+, col \d+ to line \d+, col \d+ of module 
 def action_counts(out):
     """per action: [distinct states found by it, states generated by it] from TLC's -coverage output"""
     res = {}
-    for m in _RE_ACT.finditer(out):
-        c = res.setdefault(m.group(1), [0, 0])
-        c[0] += int(m.group(3))
-        c[1] += int(m.group(4))
+    for m in _RE_ACT.finditer(out):        # a long run prints the table more than once: the last one is final
+        res[m.group(1)] = [int(m.group(3)), int(m.group(4))]
     return res
 
 
@@ -588,7 +586,8 @@ def canon(par, ops):
 
 def validate(traces):
     # many short-lived JVMs: a few thousand traces per JVM amortise the start-up; more shards only add load
-    shards = max(1, min(4, os.cpu_count() or 4, len(traces) // 1500))
+    nrec = sum(len(t["ev"]) for t in traces)
+    shards = max(1, min(4, os.cpu_count() or 4, nrec // 10000))
     return validate_traces("Trace_PArray", [{"tid": t["tid"], "par": t["par"], "ev": t["ev"]} for t in traces],
                            timeout=3000, shards=shards)
 
@@ -686,8 +685,18 @@ def main(argv_tier=None, replay_path=None):
     nrec = raised = ntraces = tv_states = 0
     t_replay = t_valid = 0.0
     sample_tids = {"t%d" % (n_tlc // 3 * 2), "r%df" % (nrand - 1), "r%dl" % (nrand - 1)}
-    for b in range(0, len(cases), BATCH):
-        chunk = cases[b:b + BATCH]
+    batches, cur, wt = [], [], 0
+    for c in cases:                 # a random history (40 steps, arrays up to 40 x 9 bytes) weighs about 8 short ones
+        w = 1 if c["src"] == "tlc" else 8
+        if cur and wt + w > BATCH:
+            batches.append(cur)
+            cur, wt = [], 0
+        cur.append(c)
+        wt += w
+    if cur:
+        batches.append(cur)
+    del cases
+    for chunk in batches:
         tx = time.time()
         traces = pmap(run_case, chunk, nproc=NPROC)
         ty = time.time()
